@@ -13,6 +13,7 @@ import uuid
 
 from . import absmap as am
 from . import core, valgen
+from .common import safe_repr
 
 
 class Expr:
@@ -127,6 +128,23 @@ def describe(e):
             "eq": e["eq"], "same_repr": e["same_repr"], "parsed": e["parsed"]}
 
 
+def texts_in_other_process(universe, hashseed):
+    import json
+    import os
+    import subprocess
+    import sys
+    from . import tlc
+    wd = tlc.workdir("C06_other_process")
+    jobs, out = os.path.join(wd, "jobs.json"), os.path.join(wd, "out.json")
+    json.dump(universe, open(jobs, "w"))
+    env = dict(os.environ, PYTHONHASHSEED=hashseed, PYTHONDONTWRITEBYTECODE="1")
+    p = subprocess.run([sys.executable, os.path.join(os.path.dirname(__file__), "reprworker.py"), jobs, out],
+                       env=env, stdout=subprocess.PIPE, stderr=subprocess.STDOUT, text=True, timeout=1800)
+    if p.returncode != 0 or not os.path.exists(out):
+        raise core.MachineryFailure("repr worker failed:\n" + p.stdout[-1500:])
+    return json.load(open(out))
+
+
 def main(chk):
     core.setup_repo_path()
     quick = chk.tier == "quick"
@@ -135,14 +153,18 @@ def main(chk):
     res = chk.model_check("MC_Repr", cfg, dump=True)
     cache = valgen.SchemaCache(chk)
     events = []
-    for st in core.load_dump(res, only='"printed"'):
-        if st["phase"] != "printed":
-            continue
-        s = st["s"]
+    universe = [st["s"] for st in core.load_dump(res, only='"printed"') if st["phase"] == "printed"]
+    # "deterministic": the same declarations print the same text in another interpreter process
+    # (another PYTHONHASHSEED); the schemas are rebuilt there in the same order
+    elsewhere = texts_in_other_process(universe, "4242")
+    am.enable_routes(True)            # restart the route rotation: same order as in the other process
+    for n, s in enumerate(universe):
         real, why = cache.get(s)
         if real is None:
             continue
         ev = observe(real)
+        if elsewhere is not None and ev.get("text") is not None and ev["stable"]:
+            ev["stable"] = safe_repr(real) == elsewhere[n]
         ev.update({"id": len(events) + 1, "s": s})
         events.append(ev)
         chk.count("type_" + s["t"])
